@@ -160,7 +160,7 @@ class FuncAnalysis:
         return cur
 
     def attr_load(self, objs: Set[AO], attr: str) -> Set[AO]:
-        out: Set[AO] = set()
+        out: Set[AO] = set(self.eff.class_mutables.get(attr, ()))
         for o in objs:
             if o[0] == "G" and o[2] == 0 and self.eff.is_instance_object(o[1]):
                 out.add(("G", f"{o[1]}.{attr}", 0))
@@ -474,6 +474,20 @@ class FuncAnalysis:
                 return args[1]
             if any(cs.name.startswith(p) or cs.name == p.rstrip(".") for p in NONDET_CALLS):
                 self.nondet.append((n.lineno, cs.name))
+            last = cs.name.rsplit(".", 1)[-1]
+            if last == "ChainMap" and args:
+                # a view: reads search every mapping, writes and deletions go to the FIRST one (the caller's object, not a copy)
+                ao = self.alloc(n, "dict", "ChainMap")
+                for a in args:
+                    self.gain(ao, self.deref(a, 1))
+                return set(args[0]) | {ao}
+            if last in ("deque", "OrderedDict", "defaultdict", "Counter") or cs.name in ("copy.copy", "copy.deepcopy"):
+                ao = self.alloc(n, "dict" if last in ("OrderedDict", "defaultdict", "Counter") else "list", last)
+                for a in args:
+                    self.gain(ao, self.deref(a, 1 if cs.name != "copy.deepcopy" else 2) if cs.name != "copy.deepcopy" else set())
+                return {ao}
+            if last in ("MappingProxyType",) and args:
+                return set(args[0])
             return set()
         if cs.kind == "builtin":
             nm = cs.name
@@ -520,15 +534,15 @@ class FuncAnalysis:
             if nm in BUILTIN_MUTATORS:
                 for o in recv:
                     self.mutate(o, f"method:{nm}", n)
-                    if nm in ("append", "add", "insert", "setdefault"):
+                    if nm in ("append", "add", "insert", "setdefault", "appendleft"):
                         for a in args:
                             self.gain(o, a)
-                    elif nm in ("extend", "update"):
+                    elif nm in ("extend", "update", "extendleft"):
                         for a in args:
                             self.gain(o, self.deref(a, 1))
                         for a in kwargs.values():
                             self.gain(o, a)
-                if nm in ("pop", "setdefault", "popitem"):
+                if nm in ("pop", "setdefault", "popitem", "popleft"):
                     return self.deref(recv, 1)
                 return set()
             if nm in ("get", "pop"):
@@ -682,7 +696,30 @@ class Effects:
         self.analyses: Dict[str, FuncAnalysis] = {}
         self._imm_cache: Dict[str, bool] = {}
         self.rounds = 0
+        self.class_mutables: Dict[str, Set[AO]] = self._class_mutables()
         self._solve()
+
+    def _class_mutables(self) -> Dict[str, Set[AO]]:
+        """attribute name -> the objects created ONCE in a class body (`pending = deque()`, `cache: Dict = {}`) and therefore shared by
+        every instance that does not re-bind the attribute: reading `self.pending` / `plan.pending` may yield that object.  An
+        attribute that some method of the class assigns through `self.<attr> = ...` is an instance attribute and is left out."""
+        out: Dict[str, Set[AO]] = {}
+        for cq, ci in self.model.classes.items():
+            rebound = {t.attr for n in ast.walk(ci.node) if isinstance(n, (ast.Assign, ast.AnnAssign, ast.AugAssign))
+                       for t in (n.targets if isinstance(n, ast.Assign) else [n.target])
+                       if isinstance(t, ast.Attribute) and isinstance(t.value, ast.Name) and t.value.id in ("self", "cls")}
+            for st in ci.node.body:
+                if isinstance(st, (ast.Assign, ast.AnnAssign)) and st.value is not None:
+                    d = st.value
+                    mutable = isinstance(d, (ast.List, ast.Dict, ast.Set, ast.ListComp, ast.DictComp, ast.SetComp)) or \
+                        (isinstance(d, ast.Call) and isinstance(d.func, ast.Name) and
+                         d.func.id in ("list", "dict", "set", "bytearray", "defaultdict", "OrderedDict", "deque", "Counter"))
+                    if not mutable:
+                        continue
+                    for t in (st.targets if isinstance(st, ast.Assign) else [st.target]):
+                        if isinstance(t, ast.Name) and t.id not in rebound and not (t.id.startswith("__") and t.id.endswith("__")):
+                            out.setdefault(t.id, set()).add(("G", f"<class attribute {cq}.{t.id}>", 0))
+        return out
 
     # -- classification of module-level objects -------------------------------------------------
     def is_instance_object(self, qual: str) -> bool:
